@@ -13,6 +13,10 @@
                        `.result()`, trio `trio.from_thread.run`; the `sync_spawn` next to it must be the executor / to_thread
   asyncioMiddlewareCallSoonWaits / trioMiddlewareCallSoonWaits
                        the same for the pair the WSGI middleware classes (middleware/wsgi.py) hand to WSGIWrapper.__call__
+  environHeaderValueDecode / environHeaderNameDecode / environQueryDecode / environPathTranscode / environScriptNameTranscode
+                       the codec (normalised through the codec registry), the `errors=` argument and a `try/except UnicodeDecodeError`
+                       fall-back of every `.decode()` / `.encode().decode()` in `_build_environ`: header values and names are
+                       latin-1, strictly and without a second attempt (PEP 3333: `value.encode("latin1")` gives the bytes back)
   fromObjectFilter     the conjuncts of the filter in `Config.from_object`'s dict comprehension (which attributes of the
                        object are dropped before `from_mapping`)
   redirectPathSource   the scope key `HTTPToHTTPSRedirectMiddleware._new_url` builds the path of the Location from
@@ -172,6 +176,106 @@ def call_soon_waits(src: Path, ex: Any) -> Optional[dict]:
     return out
 
 
+_CODEC = {"iso8859-1": ".latin1", "utf-8": ".utf8", "ascii": ".ascii"}
+
+
+def _codec(node: ast.AST) -> Optional[str]:
+    import codecs
+    if not (isinstance(node, ast.Constant) and isinstance(node.value, str)):
+        return None
+    try:
+        name = codecs.lookup(node.value).name
+    except LookupError:
+        return f'.other "{node.value}"'
+    return _CODEC.get(name, f'.other "{name}"')
+
+
+def _coding_call(node: ast.AST, method: str) -> Optional[tuple]:
+    """`<recv>.<method>(<codec>[, <errors>])` -> (receiver, codec term, errors term)"""
+    if not (isinstance(node, ast.Call) and isinstance(node.func, ast.Attribute) and node.func.attr == method):
+        return None
+    args = list(node.args)
+    kw = {k.arg: k.value for k in node.keywords}
+    if len(args) > 2 or set(kw) - {"encoding", "errors"} or (args and "encoding" in kw) or (len(args) > 1 and "errors" in kw):
+        return None
+    enc = args[0] if args else kw.get("encoding")
+    err = args[1] if len(args) > 1 else kw.get("errors")
+    codec = ".utf8" if enc is None else _codec(enc)
+    if codec is None:
+        return None
+    if err is None or (isinstance(err, ast.Constant) and err.value == "strict"):
+        errors = "none"
+    elif isinstance(err, ast.Constant) and isinstance(err.value, str):
+        errors = f'(some "{err.value}")'
+    else:
+        return None
+    return node.func.value, codec, errors
+
+
+def environ_codecs(src: Path, ex: Any) -> dict:
+    """item -> Lean term; an unrecognised site is `.unrecognised`-like (`codec := .other "?"`) and an EXTRACT-FAIL"""
+    bad_d = '{ codec := .other "?", errors := none, fallback := none }'
+    bad_t = '{ encode := .other "?", decode := .other "?" }'
+    out = {"environHeaderValueDecode": bad_d, "environHeaderNameDecode": bad_d, "environQueryDecode": bad_d,
+           "environPathTranscode": bad_t, "environScriptNameTranscode": bad_t}
+    fn = ex.find_def(ex.parse(src / "app_wrappers.py"), "_build_environ")
+    if fn is None:
+        for k in out:
+            ex.fail(k, "_build_environ not found")
+        return out
+    loops = [n for n in fn.body if isinstance(n, ast.For) and _norm(n.iter) == "scope.get('headers', [])"]
+    dicts = [n for n in fn.body if isinstance(n, ast.Assign) and _norm(n.targets[0]) == "environ" and isinstance(n.value, ast.Dict)]
+    if len(loops) != 1 or len(dicts) != 1 or _norm(loops[0].target) != "(raw_name, raw_value)":
+        for k in out:
+            ex.fail(k, "_build_environ is not `environ = {…}` followed by one `for raw_name, raw_value in scope.get('headers', [])`")
+        return out
+    loop, lit = loops[0], dicts[0].value
+
+    def assigned(var: str, raw: str, item: str) -> None:
+        """every place the loop binds `var` from `raw`: one top-level `var = raw.decode(…)`, or one
+        `try: var = raw.decode(…) except <UnicodeDecodeError>: var = raw.decode(…)`"""
+        sites = [st for st in ast.walk(loop) if isinstance(st, ast.Assign) and _norm(st.targets[0]) == var and raw in _norm(st.value)]
+        uses = [n for n in ast.walk(loop) if isinstance(n, ast.Name) and n.id == raw and isinstance(n.ctx, ast.Load)]
+        top = [st for st in loop.body if isinstance(st, ast.Assign) and st in sites]
+        tries = [st for st in loop.body if isinstance(st, ast.Try) and any(x in sites for x in ast.walk(st))]
+        if len(sites) == 1 and len(top) == 1 and len(uses) == 1:
+            c = _coding_call(top[0].value, "decode")
+            if c is not None and _norm(c[0]) == raw:
+                out[item] = f"{{ codec := {c[1]}, errors := {c[2]}, fallback := none }}"
+                return
+        elif len(sites) == 2 and len(tries) == 1 and len(uses) == 2 and not top:
+            tr = tries[0]
+            if (len(tr.body) == 1 and tr.body[0] in sites and len(tr.handlers) == 1 and not tr.orelse and not tr.finalbody
+                    and len(tr.handlers[0].body) == 1 and tr.handlers[0].body[0] in sites and tr.handlers[0].type is not None
+                    and _norm(tr.handlers[0].type) in ("UnicodeDecodeError", "UnicodeError", "ValueError", "Exception")):
+                c1 = _coding_call(tr.body[0].value, "decode")
+                c2 = _coding_call(tr.handlers[0].body[0].value, "decode")
+                if c1 is not None and c2 is not None and _norm(c1[0]) == raw and _norm(c2[0]) == raw and c2[2] == "none":
+                    out[item] = f"{{ codec := {c1[1]}, errors := {c1[2]}, fallback := some {c2[1] if ' ' not in c2[1] else '(' + c2[1] + ')'} }}"
+                    return
+        ex.fail(item, f"`{var}` is not bound by one `{var} = {raw}.decode(<codec>)` (or one try/except UnicodeDecodeError around two such) in the header loop: "
+                      f"{[_norm(x)[:80] for x in sites]}")
+
+    assigned("value", "raw_value", "environHeaderValueDecode")
+    assigned("name", "raw_name", "environHeaderNameDecode")
+    entries = {k.value: v for k, v in zip(lit.keys, lit.values) if isinstance(k, ast.Constant)}
+    q = entries.get("QUERY_STRING")
+    c = _coding_call(q, "decode") if q is not None else None
+    if c is not None and _norm(c[0]) == "scope['query_string']":
+        out["environQueryDecode"] = f"{{ codec := {c[1]}, errors := {c[2]}, fallback := none }}"
+    else:
+        ex.fail("environQueryDecode", f"QUERY_STRING is `{_norm(q)[:80] if q is not None else None}`")
+    for key, var, item in (("PATH_INFO", "path", "environPathTranscode"), ("SCRIPT_NAME", "script_name", "environScriptNameTranscode")):
+        v = entries.get(key)
+        d = _coding_call(v, "decode") if v is not None else None
+        e = _coding_call(d[0], "encode") if d is not None else None
+        if d is not None and e is not None and _norm(e[0]) == var and d[2] == "none" and e[2] == "none":
+            out[item] = f"{{ encode := {e[1]}, decode := {d[1]} }}"
+        else:
+            ex.fail(item, f"{key} is `{_norm(v)[:80] if v is not None else None}`, not `{var}.encode(<codec>).decode(<codec>)`")
+    return out
+
+
 def from_object_filter(src: Path, ex: Any) -> Optional[List[str]]:
     fn = ex.find_def(ex.parse(src / "config.py"), "Config", "from_object")
     if fn is None:
@@ -273,6 +377,29 @@ def run(src: Path, ex: Any) -> dict:
         "/-- the same for the pair `AsyncioWSGIMiddleware` / `TrioWSGIMiddleware` (middleware/wsgi.py) hand to WSGIWrapper -/\n"
         f"def asyncioMiddlewareCallSoonWaits : Bool := {str(cs['asyncioMiddleware']).lower()}\n"
         f"def trioMiddlewareCallSoonWaits : Bool := {str(cs['trioMiddleware']).lower()}", "WsgiSites")
+    # the codecs of `_build_environ` (always written: an unrecognised site is `.other "?"` + an EXTRACT-FAIL line)
+    ec = environ_codecs(src, ex)
+    files["WsgiSites"] = files["WsgiSites"].replace("\nend HC.Extracted.WsgiSites\n", "\n".join([
+        "",
+        "/-- a text encoding, as the codec registry names it (`latin1` = iso8859-1 and its aliases, …) -/",
+        "inductive Codec | latin1 | utf8 | ascii | other (name : String)",
+        "deriving Repr, DecidableEq",
+        "/-- `raw.decode(codec, errors)`; `fallback`: the call sits in `try: … except UnicodeDecodeError: raw.decode(fallback)` -/",
+        "structure Decode where\n  codec : Codec\n  errors : Option String\n  fallback : Option Codec",
+        "deriving Repr, DecidableEq",
+        "/-- `text.encode(encode).decode(decode)` (both strict) -/",
+        "structure Transcode where\n  encode : Codec\n  decode : Codec",
+        "deriving Repr, DecidableEq",
+        "/-- `value = raw_value.decode(…)` in the header loop of `_build_environ` -/",
+        f"def environHeaderValueDecode : Decode := {ec['environHeaderValueDecode']}",
+        "/-- `name = raw_name.decode(…)` in the header loop of `_build_environ` -/",
+        f"def environHeaderNameDecode : Decode := {ec['environHeaderNameDecode']}",
+        "/-- `QUERY_STRING` -/",
+        f"def environQueryDecode : Decode := {ec['environQueryDecode']}",
+        "/-- `PATH_INFO` / `SCRIPT_NAME` -/",
+        f"def environPathTranscode : Transcode := {ec['environPathTranscode']}",
+        f"def environScriptNameTranscode : Transcode := {ec['environScriptNameTranscode']}",
+        "", "end HC.Extracted.WsgiSites", ""]))
     ex.CURRENT[0] = "ConfigSites"
     f = from_object_filter(src, ex)
     files["ConfigSites"] = _file(
